@@ -521,6 +521,8 @@ class Module:
         t = self.text
         for m in re.finditer(r'^(?:fn|const|static) .*\{$', t, re.M):
             start = m.start()
+            if t[max(0, start - 16):start].rstrip().endswith('// MIR FOR CTFE'):
+                continue        # const-eval copy of a `const fn`; the runtime copy precedes it
             end = t.find('\n}\n', start)
             if end < 0:
                 end = len(t)
@@ -530,7 +532,8 @@ class Module:
                 mm = re.match(r'fn (.*?)\((_1: |\) -> )', header)
                 name = mm.group(1) if mm else header[3:header.index('(')]
             else:
-                mm = re.match(r'(?:const|static) (.*?): ', header)
+                mm = re.match(r'(?:const|static) (?:mut )?(.*?::promoted\[\d+\]): ', header) or \
+                    re.match(r'(?:const|static) (?:mut )?(.*?): ', header)
                 name = mm.group(1)
             self.index.setdefault(name, []).append((start, end + 3))
             self.headers[name] = header
